@@ -214,16 +214,20 @@ def check(prop, tier, seed):
         bounded_parts.append({'job': n['name'], 'bound': n['bound']})
         if r_.returncode != 0:
             bad = [l for l in out_.splitlines() if l.startswith(('UNSOUND', 'MISMATCH'))]
+            # open known findings of a native check name the class of failing cases (regex on the printed line): every other failing
+            # case is a violation
             kfs_ = [k for k in kfs if k.get('status', 'open') == 'open' and k['property'] == prop and k.get('job') == n['name']]
-            if kfs_:
-                for k in kfs_:
+            new_bad = [l for l in bad if not any(re.search(k.get('tag', '.'), l) for k in kfs_)]
+            for k in kfs_:
+                if any(re.search(k.get('tag', '.'), l) for l in bad):
                     print('KNOWN-FINDING: property=%s %s' % (prop, k.get('what')))
-            else:
+            native_results[-1]['known_finding_cases'] = len(bad) - len(new_bad)
+            if new_bad or not bad:
                 d_ = os.path.join(VERIF, 'replays') if not os.environ.get('VF_REPO') else os.path.join(WORK, 'replays'); os.makedirs(d_, exist_ok=True)
                 rp = os.path.join(d_, '%s__%s.json' % (prop, n['name']))
-                json.dump({'property': prop, 'job': n['name'], 'bound': n['bound'], 'failing_cases': bad[:20], 'output_tail': out_[-1500:],
+                json.dump({'property': prop, 'job': n['name'], 'bound': n['bound'], 'failing_cases': new_bad[:20], 'output_tail': out_[-1500:],
                            'native_replay': {'reproduced': True, 'note': 'the failing cases were produced by running the real code natively'}}, open(rp, 'w'), indent=1)
-                print('VIOLATION property=%s replay=%s obligation=%s (bounded native stand-in) %s' % (prop, rp, n['name'], bad[0] if bad else ''))
+                print('VIOLATION property=%s replay=%s obligation=%s (bounded native stand-in) %s' % (prop, rp, n['name'], new_bad[0] if new_bad else ''))
                 native_violation = True
         os.remove(exe)
     # obligations left UNKNOWN by cbmc: undecided, unless the same job already has a violation of this property
